@@ -15,6 +15,7 @@
 #include "vf.hpp"
 #include "ops.hpp"
 
+#pragma GCC diagnostic ignored "-Wdeprecated-declarations"
 using namespace nix;
 
 struct Call { std::string name; std::function<void(File &)> run; };
@@ -110,7 +111,9 @@ static void build_world(File &f) {
     m23.createFeature(feat, LinkType::Indexed); m23.createFeature(d3, LinkType::Tagged); m23.createFeature(featgone, LinkType::Untagged);
     MultiTag m24 = b.createMultiTag("m2x4", "t", p24); m24.addReference(d3);
     MultiTag me = b.createMultiTag("mempty", "t", empty); me.addReference(d1);
+    me.createFeature(feat, LinkType::Indexed); me.createFeature(d1, LinkType::Tagged); me.createFeature(d2, LinkType::Untagged);      // features of a multi-tag without any position
     MultiTag me2 = b.createMultiTag("mempty2", "t", empty2); me2.addReference(d2);
+    me2.createFeature(d2, LinkType::Tagged); me2.createFeature(feat, LinkType::Untagged);
     MultiTag mgone = b.createMultiTag("mgone", "t", b.createDataArray("posgone", "t", DataType::Double, NDSize({2}))); mgone.addReference(d1);
     b.createMultiTag("mnone", "t", p1);
     Group g = b.createGroup("g", "t");
@@ -215,6 +218,14 @@ static std::vector<Call> misuse() {
                 vf::guarded([&] { std::vector<ndsize_t> x = l; util::taggedData(m, x, r, RangeMatch::Inclusive); }); } });
         add("MultiTag::featureData(all," + mn + ")", [=](File &f) { MultiTag m = B(f).getMultiTag(mn); for (size_t k = 0; k <= m.featureCount() + 1; k++) for (size_t i = 0; i < 4; i++) { vf::guarded([&] { util::featureData(m, i, k, RangeMatch::Inclusive).dataExtent(); }); vf::guarded([&] { m.featureData(i, k); }); }
             vf::guarded([&] { util::featureData(m, std::vector<ndsize_t>{}, 0); }); vf::guarded([&] { util::featureData(m, std::vector<ndsize_t>{1, 0, 5}, 0); }); vf::guarded([&] { m.featureData(0, "featgone"); }); vf::guarded([&] { util::featureData(m, 0, Feature()); }); });
+        add("MultiTag::featureData(single-position spellings incl. deprecated," + mn + ")", [=](File &f) { MultiTag m = B(f).getMultiTag(mn);
+            for (size_t k = 0; k <= m.featureCount(); k++) for (size_t i = 0; i < 3; i++) {
+                vf::guarded([&] { m.featureData(i, k).dataExtent(); }); vf::guarded([&] { util::featureData(m, i, k).dataExtent(); }); vf::guarded([&] { util::retrieveFeatureData(m, i, k).dataExtent(); });
+                vf::guarded([&] { m.retrieveFeatureData(i, k).dataExtent(); });
+                vf::guarded([&] { Feature ft = m.getFeature(k); util::featureData(m, i, ft, RangeMatch::Exclusive).dataExtent(); util::retrieveFeatureData(m, i, ft).dataExtent(); });
+                vf::guarded([&] { Feature ft = m.getFeature(k); m.featureData(i, ft.data().name()).dataExtent(); m.retrieveFeatureData(i, ft.id()).dataExtent(); });
+                vf::guarded([&] { util::retrieveFeatureData(m, std::vector<ndsize_t>{(ndsize_t)i}, k); });
+            } });
         add("MultiTag getters / positions/extents," + mn, [=](File &f) { MultiTag m = B(f).getMultiTag(mn); vf::guarded([&] { m.positions().dataExtent(); }); vf::guarded([&] { m.positionCount(); }); vf::guarded([&] { m.hasPositions(); }); vf::guarded([&] { m.extents(); }); vf::guarded([&] { m.getFeature(m.featureCount()); });
             vf::guarded([&] { m.getFeature(HUGE_N); }); vf::guarded([&] { m.getReference(m.referenceCount()); }); vf::guarded([&] { m.extents(A(f, "ext1")); }); vf::guarded([&] { m.extents(A(f, "str")); }); vf::guarded([&] { m.positions(A(f, "str")); }); vf::guarded([&] { m.positions(A(f, "empty")); });
             vf::guarded([&] { m.units(std::vector<std::string>(30, "s")); }); vf::guarded([&] { for (size_t r = 0; r < m.referenceCount(); r++) m.taggedData(0, r); }); });
